@@ -195,6 +195,24 @@ def check(run, drv, we, thorough):
                             if not ok.all():
                                 run.violation("2D input: the coming-from / clockwise-from-north direction is not (270 - going-to direction) mod 360",
                                               dict(method=method, convention=conv, going=going2.tolist(), got=d2.tolist()))
+                # live object: estimate -> change the spectrum in place (documented in-place operation) -> estimate again;
+                # the second estimate describes what the object holds now (its fresh 1D reduction), not what it held before
+                cfac = float(rng.choice([0.25, 3.0]))
+                ramp = np.linspace(1.0, cfac, nd)          # changes the directional shape too
+                try:
+                    s2.multiply(ramp, ["direction"], inplace=True)
+                except Exception:
+                    s2 = None
+                if s2 is not None:
+                    s1b = s2.as_frequency_spectrum()
+                    for method in ("peak", "mean"):
+                        o2 = we.estimate_u10_from_spectrum(s2, method, number_of_bins=10)
+                        o1 = we.estimate_u10_from_spectrum(s1b, method, number_of_bins=10)
+                        run.case("twoD_eq_oneD_after_inplace_change", key=(case, method))
+                        for v in ("friction_velocity", "direction", "u10"):
+                            if not np.allclose(np.asarray(o2[v].values, dtype=float), np.asarray(o1[v].values, dtype=float), rtol=1e-12, equal_nan=True):
+                                run.violation("after an in-place change of a 2D spectrum its wind estimate is not that of its present 1D reduction",
+                                              dict(method=method, var=v, factor=cfac))
             if case < 3:
                 run.sample(dict(layout=layout, analytic=analytic, f=f.tolist()[:5], I=I, beta=beta, kappa=kappa, charnock=charn))
 
